@@ -214,6 +214,12 @@ def collapse_items(items: ExpandedItems, is_linetable: bool) -> CollapsedItems:
                 or prev_item.line_offset <= (-127 if is_linetable else -128)
             )
             and item.line_offset != 0
+            # The remainder of a split line offset has the sign of the pieces before
+            # it. A zero width entry of the opposite sign is a separate entry.
+            and (
+                item.line_offset is None
+                or (item.line_offset > 0) == (prev_item.line_offset > 0)
+            )
         )
         # Bytecode offset too large, so split between two
         if bytecode_offset_split or line_offset_split:
